@@ -235,25 +235,32 @@ def roundtrip_flip(which: int, all_present: bool, flip: int, sel: int) -> bool:
     return _roundtrip(msg, present, sel, sel != 0)
 
 
+def _subset_shards():
+    # one process per message and pool entry: the largest (C-GET-RSP / C-MOVE-RSP, 2^9 subsets) then costs ~10 CPU-min
+    return [{"msgs": [m.name], "sel": s} for m in spec.MESSAGES for s in (0, 1, 2)]
+
+
+SEL_FIXED = shard("sel", 1)
+
+
 @harness(
     "C17",
-    shards=_shards,
+    shards=_subset_shards,
     tiers=("thorough",),
-    timeout=(240, 3000),
+    timeout=(240, 2400),
     functions=_FUNCS,
-    bounds="all 23 messages (one shard each); EVERY subset of the message's parameters (one solver-enumerated bool per "
-           "parameter, up to 2^9 subsets); values from pool entry sel in {0,1,2}; data set given iff sel != 0",
+    bounds="all 23 messages x pool entry sel in {0,1,2} (one shard each); EVERY subset of the message's parameters "
+           "(one solver-enumerated bool per parameter, up to 2^9 subsets); data set given iff sel != 0",
     stubs=_STUBS,
     outside=_OUTSIDE,
 )
-def roundtrip_subsets(which: int, presence: List[bool], sel: int) -> bool:
+def roundtrip_subsets(which: int, presence: List[bool]) -> bool:
     """
     pre: 0 <= which < N_GROUP
     pre: len(presence) == N_PARAMS_MAX
-    pre: 0 <= sel <= 2
     post: _ == True
     """
     msg = spec.BY_NAME[_pick(_GROUP, which)]
     n = len(_params(msg))
     present = [True if presence[i] else False for i in range(n)]
-    return _roundtrip(msg, present, sel, sel != 0)
+    return _roundtrip(msg, present, SEL_FIXED, SEL_FIXED != 0)
